@@ -783,3 +783,78 @@ Proof.
     + simpl in Hf. lia.
     + rewrite E. exists s'. split; [reflexivity|]. split; [congruence|]. eapply same_tables_trans; [eapply same_tables_trans|]; eassumption.
 Qed.
+
+Lemma getfannlen_dir : forall s k f s' n, DFANIgetfannlen s k f = (s', n) -> l_dir s' = l_dir s.
+Proof. intros s k f s' n H. unfold DFANIgetfannlen in H. destruct f; simpl in H; repeat dmatch H; inversion H; subst; reflexivity. Qed.
+Lemma getfann_dir : forall s k f s' r, DFANIgetfann s k f = (s', r) -> l_dir s' = l_dir s.
+Proof.
+  intros s k f s' r H. unfold DFANIgetfann in H.
+  destruct f; simpl in H; repeat dmatch H; inversion H; subst; try reflexivity; simpl; destruct (dd_after _ _); reflexivity.
+Qed.
+Lemma enum_fann_dir : forall fuel s k f s' r, enum_fann fuel s k f = (s', r) -> l_dir s' = l_dir s.
+Proof.
+  induction fuel as [|n IH]; simpl; intros s k f s' r H; [inversion H; reflexivity|].
+  destruct (DFANIgetfannlen s k f) as [s1 len] eqn:E1. pose proof (getfannlen_dir _ _ _ _ _ E1) as D1.
+  destruct (len <? 0); [inversion H; subst; assumption|].
+  destruct (DFANIgetfann s1 k f) as [s2 [t|]] eqn:E2; pose proof (getfann_dir _ _ _ _ _ E2) as D2.
+  - destruct (enum_fann n s2 k false) as [s3 [l|]] eqn:E3; pose proof (IH _ _ _ _ _ E3) as D3; inversion H; subst; congruence.
+  - inversion H; subst. congruence.
+Qed.
+
+Definition enum_capped (a : state) (o : op) : Prop :=
+  match o with ODfGetFs kind => 400 <= zlen (of_type (dfan_kind_ftype kind) (anns a)) | _ => False end.
+
+Lemma NoDup_anns : forall l, NoDup (keys l) -> NoDup l.
+Proof. intros l H. apply (NoDup_map_inv a_key). exact H. Qed.
+
+Lemma sim_dfgetfs : forall h a kind h' mr a' sr, SimD h a -> kind_ok kind ->
+  mstep h (ODfGetFs kind) = (h', mr) -> step a (ODfGetFs kind) = (a', sr) ->
+  sr = RUnspec \/ enum_capped a (ODfGetFs kind) \/ (SimD h' a' /\ accepts_full sr mr).
+Proof.
+  intros h a kind h' mr a' sr [HS HD] Hk HM HSp. unfold mstep in HM. cbv beta iota zeta in HM. unfold step in HSp. cbv beta iota zeta in HSp.
+  rewrite (sim_sess _ _ HS) in HSp. destruct (h_sess h) eqn:Es; [inversion HSp; left; reflexivity|]. specialize (HD eq_refl).
+  pose proof (sim_good _ _ HS) as HG. pose proof HG as [HI HT]. destruct (sim_closed _ _ HS Es) as [C1 C2].
+  destruct (ftype_facts kind Hk) as [K1 [K2 [K3 [K4 [K5 K6]]]]]. set (t := dfan_kind_ftype kind) in *.
+  change (if kind =? DFAN_LABEL then DFTAG_FID else DFTAG_FD) with (fann_tag kind) in *. set (tag := fann_tag kind) in *.
+  set (els := of_tag tag (l_dds (h_lib h))).
+  assert (Hrepr : forall x, In x (anns a) <-> In x (map ann_of (l_dds (h_lib h)))).
+  { intros x. rewrite (sim_repr _ _ HS). apply closed_repr_iff; assumption. }
+  (* the specification's list of file annotations is a permutation of the descriptors of the tag *)
+  assert (Hperm : Permutation (map ann_of els) (of_type t (anns a))).
+  { apply NoDup_Permutation.
+    - apply NoDup_map_in.
+      + apply (NoDup_map_inv d_ref). apply of_tag_refs_NoDup. apply (tf_nodup _ HT).
+      + intros x y Hx Hy E. apply of_tag_In in Hx. apply of_tag_In in Hy. destruct Hx as [Hx Tx]. destruct Hy as [Hy Ty].
+        apply (NoDup_map_inj _ _ ddkey (l_dds (h_lib h))); [apply (tf_nodup _ HT) | assumption | assumption|].
+        unfold ann_of in E. inversion E. unfold ddkey. congruence.
+    - apply NoDup_anns. apply NoDup_filter_keys. apply (sim_nodup _ _ HS).
+    - intros x. unfold of_type. rewrite filter_In, Hrepr, !in_map_iff. split.
+      + intros [d [E Hd]]. apply of_tag_In in Hd. destruct Hd as [Hd Td]. split; [exists d; auto|]. subst x. unfold ann_of. cbn [a_key fst].
+        rewrite Td. fold tag. apply Z.eqb_eq. exact K5.
+      + intros [[d [E Hd]] Hty]. exists d. split; [assumption|]. unfold els, of_tag. apply filter_In. split; [assumption|]. apply Z.eqb_eq.
+        subst x. unfold ann_of in Hty. cbn [a_key fst] in Hty. apply Z.eqb_eq in Hty. destruct (tf_tags _ HT d Hd) as [ty [Ty Gy]].
+        rewrite Gy, ty_of_tag_of_type in Hty by assumption. subst ty. rewrite Gy. symmetry. exact K2. }
+  assert (Htext : forall d, In d els -> text_of (ann_of d) = d_data d).
+  { intros d Hd. apply of_tag_In in Hd. destruct Hd as [_ Td]. unfold ann_of, text_of, payload_text. cbn [a_text]. rewrite Td. fold tag. rewrite K4. reflexivity. }
+  assert (Hbufs : Permutation (map (fun tx => [tx]) (map d_data els)) (map (fun a0 => [text_of a0]) (of_type t (anns a)))).
+  { rewrite map_map. apply (Permutation_map (fun a0 => [text_of a0])) in Hperm. rewrite map_map in Hperm.
+    erewrite map_ext_in; [exact Hperm|]. intros d Hd. cbv beta. rewrite (Htext d Hd). reflexivity. }
+  assert (Hlen : zlen (map d_data els) = zlen (of_type t (anns a))).
+  { apply Permutation_length in Hperm. unfold zlen. rewrite !map_length in *. lia. }
+  destruct els as [|d post] eqn:Eels.
+  - (* no file annotation of this kind *)
+    assert (HM' : exists s0, enum_fann 400 (h_lib h) kind true = (s0, Some []) /\ same_tables (h_lib h) s0 /\ l_dds s0 = l_dds (h_lib h) /\ l_dir s0 = l_dir (h_lib h)).
+    { eexists. split; [|split; [|split]].
+      - cbn [enum_fann]. unfold DFANIgetfannlen, fann_lookup. cbn [negb andb l_dds set_enum]. fold tag. unfold els in Eels. rewrite Eels. cbn [hd_error]. reflexivity.
+      - repeat split. - reflexivity. - reflexivity. }
+    destruct HM' as [s0 [E0 [F0 [D0 Dr0]]]]. rewrite E0 in HM. inversion HM; inversion HSp; subst h' mr a' sr. right. right.
+    split; [split; [apply Sim_transfer; assumption | intros _; apply (DirOK_ext (h_lib h)); assumption]|].
+    left. unfold accepts. simpl in Hlen. split; [left; congruence|]. destruct (of_type t (anns a)); [constructor | unfold zlen in Hlen; simpl in Hlen; lia].
+  - destruct (le_lt_dec 400 (length post)) as [Hcap|Hcap].
+    + right. left. unfold enum_capped. change (400 <= zlen (of_type t (anns a))). rewrite <- Hlen. unfold zlen. rewrite map_length. simpl. lia.
+    + destruct (enum_from post 400 (h_lib h) kind true [] d (tf_nodup _ HT) Eels (or_introl (conj eq_refl eq_refl)) Hcap) as [s' [E [Hd' F']]].
+      rewrite E in HM. inversion HM; inversion HSp; subst h' mr a' sr. right. right.
+      pose proof (enum_fann_dir _ _ _ _ _ _ E) as Hdir.
+      split; [split; [apply Sim_transfer; assumption | intros _; apply (DirOK_ext (h_lib h)); assumption]|].
+      right. right. eexists _, _, _. split; [rewrite <- Hlen; reflexivity|]. split; [reflexivity | exact Hbufs].
+Qed.
